@@ -63,6 +63,20 @@ func (e *eventV2) SenderID() spec.SenderID {
 	return spec.SenderID(e.eventFields.SenderID)
 }
 
+// setEventID works out the event ID once, while the event is still being constructed, so
+// that EventID() does not have to write to an event that may be shared between goroutines.
+func (e *eventV2) setEventID(verImpl IRoomVersion) error {
+	if e.EventIDRaw != "" {
+		return nil
+	}
+	ref, err := referenceOfEventForVersion(e.eventJSON, verImpl)
+	if err != nil {
+		return fmt.Errorf("gomatrixserverlib: failed to generate reference of event: %w", err)
+	}
+	e.EventIDRaw = ref.EventID
+	return nil
+}
+
 func (e *eventV2) EventID() string {
 	// if we already generated the eventID, don't do it again
 	if e.EventIDRaw != "" {
@@ -101,6 +115,7 @@ func (e *eventV2) Redact() {
 	res.redacted = true
 	res.eventJSON = eventJSON
 	res.roomVersion = e.roomVersion
+	res.EventIDRaw = e.EventIDRaw // redaction does not change the event ID
 	*e = res
 }
 
@@ -182,9 +197,14 @@ func newEventFromUntrustedJSONV2(eventJSON []byte, roomVersion IRoomVersion) (PD
 
 	// EventID() and Redact() cannot report an error: they panic on events that cannot be
 	// redacted (content that is not an object, or that holds a number too large to decode).
-	if _, err = roomVersion.RedactEventJSON(eventJSON); err != nil {
+	// Working out the event ID redacts the event, and doing it here rather than on the
+	// first call of EventID() keeps the accessors free of writes, so that a parsed
+	// event can be read from several goroutines.
+	ref, err := referenceOfEventForVersion(eventJSON, roomVersion)
+	if err != nil {
 		return nil, fmt.Errorf("gomatrixserverlib: event cannot be redacted: %w", err)
 	}
+	res.EventIDRaw = ref.EventID
 
 	err = CheckFields(res)
 
@@ -300,6 +320,9 @@ func newEventFromTrustedJSONV2(eventJSON []byte, redacted bool, roomVersion IRoo
 	res.roomVersion = roomVersion.Version()
 	res.redacted = redacted
 	res.eventJSON = eventJSON
+	if err := res.setEventID(roomVersion); err != nil {
+		return nil, err
+	}
 	return &res, nil
 }
 
